@@ -195,7 +195,11 @@ fn run_entry<C: Context<NumericTypes = DefaultNumericTypes> + ContextWithMutable
                     },
                     "FunctionIdentifier" => child = call,
                     "Identical" => child = build_operator_tree::<DefaultNumericTypes>("same(7)").unwrap(),
-                    "TupleArgs" => child = build_operator_tree::<DefaultNumericTypes>(&format!("(c{}({}), c{}({}), c{}({}))", i, i, i, i, i, i)).unwrap(),
+                    "TupleArgs" => {
+                        // the parenthesised argument list itself: RootNode(Tuple(..)), without the outer root of the whole source
+                        let built = build_operator_tree::<DefaultNumericTypes>(&format!("(c{}a({}), c{}b({}), c{}c({}))", i, i, i, i, i, i)).unwrap();
+                        child = built.children()[0].clone();
+                    },
                     "Add" => {
                         *child.operator_mut() = Operator::Add;
                         child.children_mut().push(call);
